@@ -79,7 +79,8 @@ theorem modCands_mem {xmin xmax ymin ymax X Y : Int} (hx1 : xmin ≤ X) (hx2 : X
 /-- CASE 4: the true dividend is among the reconstructed values -/
 theorem vals_mem {X Y S xmin xmax : Int} (hY : 0 < Y) (hX : 0 ≤ X) (hS : S = Int.tmod X Y)
     (h1 : xmin ≤ X) (h2 : X ≤ xmax) :
-    X ∈ ((intRange (Int.tdiv (xmin - S) Y - 1) (Int.tdiv (xmax - S) Y + 1)).map
+    X ∈ ((intRange (kLo (Int.tdiv (xmin - S) Y) (Int.tdiv (xmax - S) Y) - 1)
+            (kHi (Int.tdiv (xmin - S) Y) (Int.tdiv (xmax - S) Y) + 1)).map
           (fun k => k * Y + S)).filter (fun v => decide (xmin ≤ v) && decide (v ≤ xmax)) := by
   have hk : 0 ≤ Int.tdiv X Y := Int.tdiv_nonneg hX (by omega)
   have hXe : X = Int.tdiv X Y * Y + S := by
@@ -87,6 +88,10 @@ theorem vals_mem {X Y S xmin xmax : Int} (hY : 0 < Y) (hX : 0 ≤ X) (hS : S = I
     omega
   have hb := kbounds hY hk hXe h1 h2
   rw [List.mem_filter]
+  have hlo : kLo (Int.tdiv (xmin - S) Y) (Int.tdiv (xmax - S) Y) ≤ Int.tdiv (xmin - S) Y := by
+    unfold kLo; split <;> omega
+  have hhi : Int.tdiv (xmax - S) Y ≤ kHi (Int.tdiv (xmin - S) Y) (Int.tdiv (xmax - S) Y) := by
+    unfold kHi; split <;> omega
   refine ⟨List.mem_map.2 ⟨Int.tdiv X Y, (mem_intRange _ _ _).2 ⟨by omega, by omega⟩, hXe.symm⟩, ?_⟩
   simp only [Bool.and_eq_true, decide_eq_true_eq]
   exact ⟨h1, h2⟩
@@ -170,10 +175,22 @@ theorem sound_modulo (x y : IView) (s : Nat) (hx : x.WF) (hy : y.WF) (c : Ctx) (
   · rw [if_neg h1]
     refine Keeps.bind (Keeps.bind ?_ (fun c1 m1 => ?_)) (fun c2 m2 => ?_)
     · by_cases h2 : y.vmin c = y.vmax c
-      · rw [if_pos h2, if_pos hy0, if_pos hy0]
+      · rw [if_pos h2]
+        have hx0 : x.vmin c ≥ 0 := h0
+        have hnat : ((y.vmin c).natAbs : Int) = y.vmin c := by omega
+        simp only [if_pos hx0, hnat]
         refine both_keeps hm ?_ ?_
         · split <;> omega
-        · split <;> omega
+        · have hz0 : x.vmax c ≤ 0 → a s = 0 := by
+            intro h
+            have : x.eval a = 0 := by omega
+            rw [hs, this]; simp
+          by_cases hxm : x.vmax c ≤ 0
+          · have := hz0 hxm
+            simp only [hxm, if_true]
+            split <;> omega
+          · simp only [hxm, if_false]
+            split <;> omega
       · rw [if_neg h2]; exact Keeps.some hm
     · refine cands_keeps m1 ?_
       rw [hs]
@@ -332,12 +349,13 @@ theorem mem3 {dx dy ds : Dom} {vx vy vs : Int} (h0 : vx ∈ dx) (h1 : vy ∈ dy)
   | 1 => exact h1
   | _ + 2 => exact h2
 
-/-- negative dividend: `x ∈ {-7,-6}`, `y = 3`, `s = -1`; `-7 % 3 = -1` is a solution in the store,
-but CASE 2 forces `s ≥ 0` and the propagator fails. -/
-theorem modulo_negative_counterexample :
+/-- negative dividend: `x ∈ {-7,-6}`, `y = 3`, `s = -1`; `-7 % 3 = -1` is a solution in the store and is
+kept (witness of the former finding `modulo-negative`: CASE 2 forced `s ≥ 0`; repaired by
+`fix: Modulo bounds the remainder by the sign of the dividend`) -/
+theorem modulo_negative_kept :
     Mem (st3 [-7, -6] [3] [-1]) (as3 (-7) 3 (-1)) ∧
     holds (as3 (-7) 3 (-1)) (.modulo (.var 0) (.var 1) 2) = true ∧
-    prune (.modulo (.var 0) (.var 1) 2) { st := st3 [-7, -6] [3] [-1] } = none :=
+    (prune (.modulo (.var 0) (.var 1) 2) { st := st3 [-7, -6] [3] [-1] }).isSome = true :=
   ⟨mem3 (by decide) (by decide) (by decide), by decide, by decide⟩
 
 /-- dividend boundary sampling: `x ∈ {0, 7, 20}` (range wider than 10), `y ∈ {3,4}`,
